@@ -397,3 +397,29 @@ func Symbolic() bool { return false }
 func Note(s string) {}
 
 var _ = strings.Contains
+
+// Oracle logs (natively only) whether the harness's reference formula agrees with
+// go/types on the concrete replay input; a disagreement marks the reference wrong,
+// never the code under test.
+func Oracle(id string, agrees bool, detail string) {
+	v := "true"
+	if !agrees {
+		v = "MISMATCH " + detail
+	}
+	events = append(events, Event{"oracle", id, v})
+}
+
+// Thorough reports whether the thorough tier is running (harnesses widen enumerated structure).
+func Thorough() bool { return inputInt("__thorough", 0) != 0 }
+
+// Fact names an integer quantity of the current case so that known-finding regions can refer to it (engine only).
+func Fact(name string, v int) {}
+
+// FactBool names a condition of the current case for known-finding regions (engine only).
+func FactBool(name string, b bool) {}
+
+// And is a non-short-circuit conjunction (no fork under the engine).
+func And(a, b bool) bool { return a && b }
+
+// Or is a non-short-circuit disjunction (no fork under the engine).
+func Or(a, b bool) bool { return a || b }
